@@ -374,9 +374,12 @@ Fixpoint join (sep : bytes) (l : list bytes) : bytes :=
 Definition clause_cnf (c : clause) : bytes :=
   List.concat (map (fun l => print_Zl l ++ [SP]) c) ++ tok "0".
 
-(* problem.go:26-35; P = (NbVars, Units, Clauses) *)
-Definition print_cnf_b (P : Z * list lit * cnf) : bytes :=
-  let '(n, units, cls) := P in
+(* problem.go:26-38; P = (NbVars, Status == Unsat, Units, Clauses).
+   A trivially UNSAT problem is printed as the single empty clause (:27-29). *)
+Definition print_cnf_b (P : Z * bool * list lit * cnf) : bytes :=
+  let '(n, unsat, units, cls) := P in
+  if unsat then tok "p cnf " ++ print_Zl n ++ tok " 1" ++ [LF] ++ tok "0" ++ [LF]
+  else
   tok "p cnf " ++ print_Zl n ++ [SP]
   ++ print_Zl (Z.of_nat (List.length cls) + Z.of_nat (List.length units)) ++ [LF]
   ++ List.concat (map (fun u => print_Zl u ++ tok " 0" ++ [LF]) units)
@@ -415,13 +418,17 @@ Definition cost_func_string (cost : option cost) : bytes :=
 (* A problem as solver.Problem holds it. *)
 Record pb_problem := PBProblem {
   pp_nbvars : Z;
+  pp_unsat : bool;             (* Status == Unsat *)
   pp_units : list lit;
   pp_clauses : list pbc;       (* a plain clause c is PBC (unit_terms c) 1 *)
   pp_cost : option cost
 }.
 
-(* problem.go:38-52 *)
+(* problem.go:41-58.  A trivially UNSAT problem is printed as the cost function
+   and the contradiction "1 x1 >= 2 ;" (:42-44). *)
 Definition print_opb_b (P : pb_problem) : bytes :=
+  if pp_unsat P then cost_func_string (pp_cost P) ++ tok "1 x1 >= 2 ;" ++ [LF]
+  else
   cost_func_string (pp_cost P)
   ++ List.concat (map (fun u => tok "1 " ++ var_tok u ++ tok " = 1 ;" ++ [LF]) (pp_units P))
   ++ List.concat (map (fun c => clause_pbstring c ++ [LF]) (pp_clauses P)).
@@ -429,13 +436,14 @@ Definition print_opb_b (P : pb_problem) : bytes :=
 (* What Solver.PBString looks at. *)
 Record solver_view := SolverView {
   sv_nbvars : Z;
+  sv_unsat : bool;             (* s.status == Unsat *)
   sv_orig : list pbc;          (* s.wl.origClauses *)
   sv_learned : list pbc;       (* s.wl.learned, cardinality 1 *)
   sv_cost : option cost;       (* s.minLits / s.minWeights *)
   sv_model : list Z            (* s.model: signed decision levels, index i = variable i+1 *)
 }.
 
-(* solver.go:834-840 *)
+(* solver.go:841-847 *)
 Fixpoint facts_str (i : Z) (m : list Z) : list bytes :=
   match m with
   | [] => []
@@ -446,16 +454,27 @@ Fixpoint facts_str (i : Z) (m : list Z) : list bytes :=
     ++ facts_str (i + 1) r
   end.
 
-(* solver.go:807-842 *)
+(* solver.go:812-828: no '+' on the first term and on the negative ones *)
+Fixpoint solver_cost_terms (first : bool) (ts : list term) : list bytes :=
+  match ts with
+  | [] => []
+  | t :: r =>
+    ((if first || (fst t <? 0) then [] else tok "+") ++ term_str t) :: solver_cost_terms false r
+  end.
+
+(* solver.go:807-849 *)
 Definition print_solver_opb_b (S : solver_view) : bytes :=
   let meta := tok "* #variable= " ++ print_Zl (sv_nbvars S)
               ++ tok " #constraint= " ++ print_Zl (Z.of_nat (List.length (sv_orig S)))
               ++ tok " #learned= " ++ print_Zl (Z.of_nat (List.length (sv_learned S))) ++ [LF] in
   let minline := match sv_cost S with
                  | None => []
-                 | Some ts => tok "min: " ++ join (tok " +") (map term_str ts) ++ tok " ;" ++ [LF]
+                 | Some ts => tok "min: " ++ join [SP] (solver_cost_terms true ts)
+                              ++ tok " ;" ++ [LF]                       (* :829 *)
                  end in
-  let clauses := map clause_pbstring (sv_orig S ++ sv_learned S) ++ facts_str 0 (sv_model S) in
+  let clauses := map clause_pbstring (sv_orig S ++ sv_learned S)
+                 ++ (if sv_unsat S then [tok "1 x1 >= 2 ;"] else [])    (* :838-840 *)
+                 ++ facts_str 0 (sv_model S) in
   meta ++ minline ++ join [LF] clauses.
 
 (* ------------------------------------------------------------------ *)
@@ -470,7 +489,7 @@ Definition render_wcnf (lay : layout) (I : Z * Z * list wclause) : string :=
 Definition render_opb (lay : layout) (P : ostate) : string :=
   string_of_list_ascii (render_opb_b lay P).
 
-Definition print_cnf (P : Z * list lit * cnf) : string := string_of_list_ascii (print_cnf_b P).
+Definition print_cnf (P : Z * bool * list lit * cnf) : string := string_of_list_ascii (print_cnf_b P).
 Definition print_explain (P : Z * cnf) : string := string_of_list_ascii (print_explain_b P).
 Definition print_opb (P : pb_problem) : string := string_of_list_ascii (print_opb_b P).
 Definition print_solver_opb (S : solver_view) : string :=
